@@ -24,11 +24,14 @@
 (* The db store builds the same tree with a different algorithm            *)
 (* (db/reader.go initNodes); it is not transcribed - it is bound by trace  *)
 (* validation and the monitor like the memory store.                       *)
-(* Deliberate deviations: link counts of DIRECTORIES are not compared (a   *)
-(* tar does not describe them; only >= 2 is required); mtime/uid/gid of    *)
-(* implicit parents likewise (uid/gid 0 required); whiteouts, opaque       *)
-(* directories and the state directory belong to C07; a hard link whose    *)
-(* name is overwritten by a later entry is outside the input space.        *)
+(* Deliberate deviations: mtime of implicit parents is not compared (a tar *)
+(* does not describe it; uid/gid 0 required); the link count of a directory*)
+(* is 2 + its sub-directories; whiteouts, opaque directories and the state *)
+(* directory belong to C07; outside the input space (TarOK): a hard link   *)
+(* whose name is overwritten by a later entry, a name that is a directory  *)
+(* in one entry and something else in another, a root entry "./", device   *)
+(* numbers beyond what the 32 bit rdev of FUSE can hold (major > 4095,     *)
+(* minor > 1048575).                                                       *)
 EXTENDS Integers, Sequences, FiniteSets, TLC
 
 CONSTANTS
@@ -38,6 +41,7 @@ CONSTANTS
     ImplicitDirMode755,     \* getOrCreateDir creates missing parents with mode 0755
     LinksCountOnSource,     \* a hard link increments NumLink of its (resolved) source
     SymlinkSizeFromTarget,  \* entryToAttr: size of a symlink = len(LinkName)
+    MkdevSplit,             \* entryToAttr packs rdev with unix.Mkdev (12+20 bit split), not major<<8|minor
     MemoOnlyHidesAbsent,    \* the memoised listing answers ENOENT only for names that are not children
     AttrOpsEverywhere       \* generation only: FALSE = Getattr/Readlink/Getxattr (independent of memo) only before any listing is memoised
 
@@ -81,7 +85,10 @@ RefAttr(p) ==
     Bind(RefEnt(Ident(p)), LAMBDA e :
     [mode |-> TypeBits(e.type) + (e.mode % 4096),
      size |-> IF e.type = "reg" THEN e.size ELSE IF e.type = "symlink" THEN Len(e.target) ELSE 0,
-     nlink |-> IF e.type = "dir" THEN 2 ELSE RefNlink(p),
+     \* a directory: ".", its name in the parent, and ".." of every sub-directory (each counted once)
+     nlink |-> IF e.type = "dir"
+               THEN Bind(Ident(p), LAMBDA d : 2 + Cardinality({c \in AllPaths : IsChild(d, c) /\ RefEnt(c).type = "dir"}))
+               ELSE RefNlink(p),
      uid |-> e.uid, gid |-> e.gid,
      major |-> IF e.type \in {"char", "block"} THEN e.major ELSE 0,
      minor |-> IF e.type \in {"char", "block"} THEN e.minor ELSE 0,
@@ -96,8 +103,10 @@ AttrOK(a, p) ==
     Bind(RefAttr(p), LAMBDA r :
     /\ a.mode = r.mode
     /\ a.size = r.size
-    /\ IF r.isdir THEN a.nlink >= 2 ELSE a.nlink = r.nlink
+    /\ a.nlink = r.nlink
     /\ a.uid = r.uid /\ a.gid = r.gid
+    \* the pair the kernel decodes from the served rdev (unix.Major / unix.Minor of glibc's 12+20 bit split encoding);
+    \* the raw rdev is recorded next to it as a hex string (it does not fit TLC's 32 bit integers)
     /\ a.major = r.major /\ a.minor = r.minor
     /\ (~r.implicit => a.mtime = r.mtime))
 
@@ -122,7 +131,11 @@ CodeAttr(p) ==
                  ELSE IF e.type = "reg" THEN e.size ELSE 0,
         nlink |-> IF nl = 0 THEN 1 ELSE nl,
         uid |-> e.uid, gid |-> e.gid,
-        major |-> e.major, minor |-> e.minor,                          \* unix.Mkdev(DevMajor, DevMinor)
+        \* out.Rdev = unix.Mkdev(DevMajor, DevMinor), read back as the kernel does (unix.Major / unix.Minor);
+        \* the negative control packs major<<8|minor, which decodes differently as soon as minor >= 256
+        major |-> IF MkdevSplit THEN e.major ELSE ((e.major * 256 + e.minor) \div 256) % 4096,
+        minor |-> IF MkdevSplit THEN e.minor
+                  ELSE ((e.major * 256 + e.minor) % 256) + (((e.major * 256 + e.minor) \div 4096) \div 256) * 256,
         mtime |-> e.mtime]))
 NoAttr == [mode |-> 0, size |-> 0, nlink |-> 0, uid |-> 0, gid |-> 0, major |-> 0, minor |-> 0, mtime |-> 0]
 \* node.readdir: children without landmarks (root), plus "." and "..", sorted by name (order not modelled)
@@ -205,4 +218,6 @@ TarOK ==
           /\ RefIdx(T[i].path) = i
           /\ \E j \in 1..(i - 1) : T[j].path = T[i].link
     /\ \A p \in AllPaths : (\E q \in AllPaths : IsChild(p, q)) => RefEnt(p).type = "dir"
+    /\ \A i, j \in DOMAIN T : T[i].path = T[j].path => ((T[i].type = "dir") = (T[j].type = "dir"))
+    /\ \A i \in DOMAIN T : T[i].major \in 0..4095 /\ T[i].minor \in 0..1048575       \* what a 32 bit rdev can hold
 =============================================================================
